@@ -101,6 +101,12 @@ func (w *World) VerifyFunc(ct *Contract) (res *FuncResult) {
 	if reach != "false" && ct.ModSet {
 		e.frameObligations(fr, ct, entry, out, reach)
 	}
+	// a cut-point assertion that matched no call says something about a call that is not there
+	for k, ca := range ct.Asserts {
+		if ca.Kind == "call" && fr.callN[fmt.Sprintf("assertseen:%d", k)] == 0 {
+			e.ob(fr, "assert", fmt.Sprintf("assert@%s#%d", ca.Callee, ca.N), reach, "false", "no such call: "+ca.Clause.Src, fn.Pos())
+		}
+	}
 	// vacuity: the exit must be reachable under the requires and all assumed callee contracts
 	v := e.ob(fr, "vacuity", "vacuity", reach, "false", "exit reachable under requires/assumptions", fn.Pos())
 	v.ExpectSat = true
